@@ -178,7 +178,10 @@ def eval_fit(case):
         press[[7, n // 2 + 3]] = np.nan     # missing pressures
         gas[3] = -1.0                        # a negative correction counts as 'no production'
         gas[9] = np.nan                      # a missing rate as well
-    prod = pd.DataFrame({"Days": days * 1.0, "Gas": gas, "Pressure": press, "Other": np.arange(n)})  # day 0 produces
+    other_col = np.arange(n, dtype=float)
+    if dirty:  # gaps in a column the fit does not use (oil, water, choke ...) on days that DO have production and pressure
+        other_col[[2, n // 3, n - 4]] = np.nan
+    prod = pd.DataFrame({"Days": days * 1.0, "Gas": gas, "Pressure": press, "Other": other_col})  # day 0 produces
     if case.get("cols") == "permuted":       # columns are found by NAME: another order, an extra numeric column first
         prod = prod[["Other", "Pressure", "Gas", "Days"]]
     if case.get("index") == "offset":        # a table cut out of a longer history: labels 100, 101, ...
